@@ -791,7 +791,7 @@ PROPS = {
              " Rules files with fields given as empty strings (an empty CIDR matches nobody, an empty prefix still asks for a client random)"
              " A QUIC connection whose request got no answer (denied) keeps sending PINGs: within 2 s the endpoint must have closed it (suite c04live)",
         explanation="theorems first_match_wins, default_allow, fail_closed_without_random, prefix/mask semantics, "
-                    "malformed_never_matches, mapped_peer_eq_v4_peer, deny_precedes_handshake about TT/Model/Rules.lean",
+                    "malformed_never_matches, mapped_peer_eq_v4_peer, deny_precedes_handshake, rules_after_a_match_irrelevant, catch_all_deny_first/last, no_engine_allows about TT/Model/Rules.lean",
         trusted=["ipnet CIDR parsing and hex::decode (the harness passes parsed CIDRs to the model; hex decoding is modelled)",
                  "accept-path ordering is a hand transcription of core.rs, tied by the live listener suites (TCP and QUIC)"],
         assumptions=["QUIC: rules are evaluated after the QUIC handshake completes but before any HTTP/3 codec exists, as the property states"],
